@@ -144,9 +144,9 @@ def run(tier, seed, kinds=("mutex",)):
 
     # ---- pass 1: scenarios on the implementation
     quick = tier == "quick"
-    runs_corpus = 30 if quick else 600
-    runs_gen = 10 if quick else 120
-    n_gen = 30 if quick else 400
+    runs_corpus = 30 if quick else 300
+    runs_gen = 10 if quick else 60
+    n_gen = 30 if quick else 200
     lines, meta = [], []
     for kind in kinds:
         g = LockScen(kind)
